@@ -6,7 +6,7 @@ pinned test-suite is run on it, and - only if the suite still passes - the quick
 Usage: mutants.py [--per-file N] [--jobs J] [--files a.py,b.py] [--out report.json]"""
 import ast, os, sys, json, random, shutil, subprocess, argparse, tempfile, concurrent.futures as cf
 VERIF = os.path.dirname(os.path.dirname(os.path.abspath(__file__)))
-REPO = "/repo"
+REPO = os.environ.get("CF_MUTANTS_REPO", "/repo")      # a stable copy can be named here, so that /repo itself stays free for seeded changes while a campaign runs
 FILEMAP = {
     "algo.py": ["C01", "C02", "C07", "C09", "C16", "C17"], "CFDhar.py": ["C02", "C08", "C09", "C01"], "CFRank.py": ["C03"],
     "CFDivisor.py": ["C05", "C12", "C20", "C16", "C07"], "CFGraph.py": ["C13", "C20", "C17", "C02"], "CFConfig.py": ["C10", "C05", "C20", "C16"],
